@@ -10,11 +10,22 @@ import gc
 import io
 import os
 import sys
+import time
 import traceback
 
 from . import env, sqlseam
 
 _MAIN = None
+
+# spowtd has no timers today; should a tree under test sleep (a retry loop, a
+# back-off), the wait is taken from a simulated clock instead of the real one.
+SIM_CLOCK = {"slept_s": 0.0, "sleeps": 0}
+_REAL_SLEEP = time.sleep
+
+
+def _sim_sleep(seconds):
+    SIM_CLOCK["slept_s"] += max(0.0, float(seconds))
+    SIM_CLOCK["sleeps"] += 1
 
 
 def _main():
@@ -75,6 +86,7 @@ def run(argv, keep_stdout=False):
     sys.stdout = out
     sys.stderr = io.StringIO()
     status, exc_type, exc_msg, frame, frames = 0, None, None, None, ()
+    time.sleep = _sim_sleep
     try:
         try:
             rv = main(list(argv))
@@ -95,6 +107,7 @@ def run(argv, keep_stdout=False):
             del exc
     finally:
         sys.stdout, sys.stderr = old_out, old_err
+        time.sleep = _REAL_SLEEP
     sqlseam.process_exit()
     if status != 0:
         gc.collect()        # drop file objects / frames a failed command left in cycles
